@@ -370,6 +370,24 @@ fn main() {
 }
 ''')
 
+
+P("C12", "static_collect_branded_root", "E0277|E0310|E0477|E0478|~not general enough|" + LIFETIME, "static_collect! on a type holding a branded pointer, used as a root", '''
+use gc_arena::static_collect;
+struct Holder<'gc>(Gc<'gc, i32>);
+struct PlainHolder(i32);
+#[cfg(bad)]
+static_collect!(<'a> Holder<'a>);
+#[cfg(not(bad))]
+static_collect!(PlainHolder);
+fn main() {
+    #[cfg(bad)]
+    let mut arena = Arena::<Rootable![Holder<'_>]>::new(|mc| Holder(Gc::new(mc, 1)));
+    #[cfg(not(bad))]
+    let mut arena = Arena::<Rootable![PlainHolder]>::new(|mc| PlainHolder(1));
+    arena.finish_cycle();
+}
+''')
+
 # ------------------------------------------------------------------------------------------------ C03
 P("C03", "collect_inside_mutate", "E0502|E0500|E0501", "a collection method called inside the mutate callback", '''
 fn main() {
